@@ -54,6 +54,9 @@ def run(tier, seed, replay=None):
     cfgs = c06.QUICK if tier == "quick" else c06.THOROUGH
     if tier == "quick":
         cfgs = {"A-versions": c06.consts(MaxEnv=0, MaxTicks=0), "B-env": cfgs["B-env"]}
+    else:
+        # the long timed single-provider histories (TTL expiry cycles) belong to C06; readers add nothing there but hours
+        cfgs = {k: v for k, v in cfgs.items() if k not in ("T5-reappear", "T2-ttl3")}
     per = max(2, vlib.NCPU // len(cfgs))
     jobs = [(name, dict(module="ProviderCacheMC", cfg=(name + ".cfg", vlib.cfg_text(c, c06.INV, view="view")), workers=per,
                         timeout=14000, tag="c07" + name)) for name, c in cfgs.items()]
